@@ -118,9 +118,30 @@ def run_job(mc, drv, fmode=0, max_stims=None, seed=0, shard_size=None, keep=Fals
         lines = open(st['path']).readlines()
         total = len(lines)
         if max_stims is not None and len(lines) > max_stims:
+            # stratified sample: every distinct final call (operation + arguments) is represented before any
+            # is represented twice; within a stratum the pre-state (path) is chosen at random from the seed
             rnd = random.Random(seed * 7919 + 13)
-            idxs = sorted(rnd.sample(range(len(lines)), max_stims))
-            lines = [lines[i] for i in idxs]
+            strata = {}
+            for i, ln in enumerate(lines):
+                strata.setdefault(ln.rsplit(';', 1)[-1].split('|')[-1].strip(), []).append(i)
+            for v in strata.values():
+                rnd.shuffle(v)
+            keys = sorted(strata)
+            rnd.shuffle(keys)
+            idxs = []
+            depth = 0
+            while len(idxs) < max_stims:
+                progressed = False
+                for k in keys:
+                    if depth < len(strata[k]):
+                        idxs.append(strata[k][depth])
+                        progressed = True
+                        if len(idxs) >= max_stims:
+                            break
+                depth += 1
+                if not progressed:
+                    break
+            lines = [lines[i] for i in sorted(idxs)]
         if shard_size is None:
             # a TLC process costs ~3 s before its first line; aim for >= ~25k trace lines per shard
             shard_size = 500 if fmode >= 2 else (1200 if fmode == 1 else 6000)
